@@ -146,7 +146,7 @@ package codec
 //@   at-call Close as cl: assert [stream-finished] called(wr) && res(wr, 1) == nil
 //@   ensures [whole-payload-then-close] result.1 == nil ==> called(wr) && called(cl)
 //@ func (*Encoder).Write
-//@   props C01
+//@   props C01 C15
 //@   at-call NewBuffer as nb: assert ref(arg0) == ref(payload) && len(arg0) == len(payload)
 //@   at-call writeBuf as wb: assert held(e.mu) == wlocked && arg0 == e && arg1 == res(nb)
 
